@@ -44,7 +44,18 @@ function scopeCheck (ast, prefix) {
         const declared = new Set()
         for (const s of n.stmts) if (isInjectedLet(s)) for (const d of s.declarations) { if (declared.has(d.id.value)) problems.push({ rule: 'temp-declared-twice', sig: 'let', detail: `${d.id.value} declared twice in one block` }); declared.add(d.id.value) }
         stack.push({ declared })
-        for (const s of n.stmts) if (!isInjectedLet(s)) walk(s)
+        // a `let` binding is in its temporal dead zone until the declaration has run: a statement placed BEFORE the
+        // injected `let` of its block must not touch the names it declares
+        let pending = new Set(declared)
+        for (const s of n.stmts) {
+          if (isInjectedLet(s)) { for (const d of s.declarations) pending.delete(d.id.value); continue }
+          if (pending.size && s.type !== 'FunctionDeclaration') {
+            const used = new Set()
+            ;(function scan (x) { if (Array.isArray(x)) { x.forEach(scan); return } if (!isObj(x)) return; if (/Function|Method|Constructor|Getter|Setter/.test(x.type || '')) return; if (x.type === 'Identifier' && isTemp(x)) used.add(x.value); for (const k of Object.keys(x)) if (k !== 'span') scan(x[k]) })(s)
+            for (const nm of used) if (pending.has(nm)) { problems.push({ rule: 'temp-used-before-declaration', sig: 'let-after-use', detail: `temporary ${nm} is used by a statement placed before the injected \`let\` of its block (temporal dead zone)` }); break }
+          }
+          walk(s)
+        }
         stack.pop()
         return
       }
